@@ -76,6 +76,9 @@ pub struct Program {
     /// attribute every violation found in this program to this property (the scenario exists
     /// to decide it); the original classification stays in the detail text
     pub claim: Option<&'static str>,
+    /// the program uses the default collector / the Rc world (false for scenarios on a private
+    /// collector: then the common epilogue, which pins in the default collector, is skipped)
+    pub rc_world: bool,
 }
 
 impl Default for Program {
@@ -95,6 +98,7 @@ impl Default for Program {
             finish: None,
             state_points: true,
             claim: None,
+            rc_world: true,
         }
     }
 }
@@ -189,16 +193,19 @@ pub fn run_one(prog: Program, prefix: &[u8], trace: bool) -> ExecResult {
     if !stop {
         let post = prog.post;
         let drain_max = prog.drain_max;
+        let rc_world = prog.rc_world;
         stop = run(
             0,
             vec![Box::new(move || {
                 if let Some(p) = post {
                     p(world);
                 }
-                let c = Ctx::new();
-                release_world(&c, world);
-                let used = c.drain(drain_max);
-                monitor::mon().mix_outcome(0x77 ^ ((used as u64) << 8));
+                if rc_world {
+                    let c = Ctx::new();
+                    release_world(&c, world);
+                    let used = c.drain(drain_max);
+                    monitor::mon().mix_outcome(0x77 ^ ((used as u64) << 8));
+                }
             })],
             &mut res,
         );
